@@ -325,6 +325,9 @@ pub struct EpCfg {
     /// servers: the protocol service, while handling a SUBSCRIBE, sends a QoS 1 publish through the sink and awaits
     /// its acknowledgement before it answers (a handler that itself waits on the connection)
     pub proto_sends: bool,
+    /// servers: the publish handler calls `sink.force_close()` when it sees a publish on topic "a" (an application that
+    /// gives up on the connection while more packets are already buffered)
+    pub close_on_a: bool,
     pub ctl: CtlMode,
     /// v5 router: use `v5::Router` with resources "a" and "b" plus default
     pub router: bool,
@@ -374,6 +377,7 @@ impl EpCfg {
             proto_auto: true,
             proto_default_service: false,
             proto_sends: false,
+            close_on_a: false,
             ctl: CtlMode::None,
             router: false,
             client_keepalive: 0,
@@ -539,6 +543,7 @@ impl Drop for Conn {
         self.cgates.clear_wakers();
         CGATES.with(|c| *c.borrow_mut() = None);
         READY_GATE.with(|c| *c.borrow_mut() = None);
+        CUR_SINK.with(|c| *c.borrow_mut() = None);
     }
 }
 
@@ -547,6 +552,23 @@ impl Drop for Conn {
 pub struct ReadyState {
     failed: Cell<bool>,
     waker: RefCell<Option<Waker>>,
+}
+
+thread_local! {
+    /// sink slot of the connection created last on this thread (handlers that close the connection themselves)
+    static CUR_SINK: RefCell<Option<Rc<RefCell<Option<Sink>>>>> = const { RefCell::new(None) };
+}
+
+fn force_close_current() {
+    let slot = CUR_SINK.with(|c| c.borrow().clone());
+    if let Some(slot) = slot {
+        let sk = slot.borrow().clone();
+        match sk {
+            Some(Sink::V5(s)) => s.force_close(),
+            Some(Sink::V3(s)) => s.force_close(),
+            None => {}
+        }
+    }
 }
 
 thread_local! {
@@ -799,7 +821,11 @@ impl Handles {
                 CGATES.with(|c| *c.borrow_mut() = Some(g.clone()));
                 g
             },
-            sink: Rc::new(RefCell::new(None)),
+            sink: {
+                let s = Rc::new(RefCell::new(None));
+                CUR_SINK.with(|c| *c.borrow_mut() = Some(s.clone()));
+                s
+            },
         }
     }
 }
@@ -824,6 +850,9 @@ async fn v5_publish_handler(
         size: p.payload_size(),
         props: props_str_v5(&p.packet().properties),
     });
+    if cfg.close_on_a && p.publish_topic().to_string() == "a" {
+        force_close_current();
+    }
     if cfg.read_mode == ReadMode::Detached {
         let pl = p.take_payload();
         let log2 = log.clone();
